@@ -31,7 +31,7 @@ ZOO = {
     'z12_roots_s':   's[.C[..]O[..]]',                                            # headless selectable root
     'z13_res_util':  'C[U[R[.C[..]N[..]].]N[R[C[..]S[..]]u[..]].R[.U[..]]]',      # resumable regions with region-valued sub-states under utilitarian / random regions
     'z14_mix':       'R[S[N[..]R[.C[..]]]O[R[.C[..]]U[R[..].]].]',                # resumable root, random under selectable, resumable under orthogonal and utilitarian
-    'z15_units':     'C[O[..........]O[C[.C[..]]R[..].]C[..]O[........]]',        # a 10-wide orthogonal region (two bit units) declared before another one with nested regions; the last orthogonal region is exactly 8 wide
+    'z15_units':     'C[O[O[..........]C[.C[..]]]O[C[.C[..]]R[..].]O[........]]',  # a 10-wide orthogonal region (two bit units) inside an orthogonal region, followed there by a sub-state with regions, and declared before another orthogonal region with nested regions; the last orthogonal region is exactly 8 wide
 }
 
 
